@@ -92,10 +92,10 @@ CHECKS['C03'] = dict(
     title='Listener management and dispatch are thread-safe and linearizable',
     level='exploration',
     rule='concurrent histories: 2-4 threads x 4-10 operations (append/prepend/insert before a shared handle/remove a shared handle/ownsHandle/empty/forEach/invoke) on one CallbackList or one '
-         'EventDispatcher (2 keys, history partitioned per key; std::map and unordered_map), std::mutex and SpinLock, 1-6 pre-populated callbacks, handles published between threads; every call '
+         'EventDispatcher (2 keys, history partitioned per key; std::map and unordered_map), or on one HeterCallbackList / HeterEventDispatcher (two prototypes, history partitioned per prototype; half of these start with no per-prototype list created yet, so the first uses are concurrent), std::mutex and SpinLock, 1-6 pre-populated callbacks, handles published between threads; every call '
          'stamped (call, return) by one global atomic tick at the client boundary; after join: Wing-Gong/Lowe linearizability search against M-list with the final enumeration as last operation, '
          'direct at-most-once-removal / no-loss / no-duplication counts, traversal oracle (no callback twice; callbacks present throughout visited exactly once; none removed before / added after; '
-         'order consistent with final list order), structural walk, ledger; schedule perturbation off/random/targeted (incl. the window between before.lock() and the mutex in insert); TSan build; '
+         'order consistent with final list order), structural walk, ledger; a sixth of the homogeneous histories start just before the wrap of the generation counter; schedule perturbation off/random/targeted (incl. the window between before.lock() and the mutex in insert); TSan builds with g++ and clang++; '
          'the "every call returns without deadlock" clause is also exercised after exceptions: the callback-list and dispatcher families of the C09 fault enumeration continue each history after every injected fault (a lock left held shows as a hang -> watchdog); '
          'distinct_nontrivial = distinct lock-acquisition-order hashes (plain builds)',
     jobs=[J('drv_cblist_mt', 'plain', '', 40000, 600000, shards=8, shards_thorough=16),
